@@ -5,8 +5,8 @@
    Fuel passed by the generated call sites (checks/C19.py): 66 / 130 for the Euclid loops (= gcd_fuel 32 / 64 of the model),
    40 for the Newton loops (= sqrt_fuel); the model's theorems show these suffice. *)
 Set Default Timeout 120.
-From Coq Require Import NArith List Bool Lia.
-From LibaV Require Import C19.IntDefs.
+From Coq Require Import NArith ZArith List Bool Lia.
+From LibaV Require Import C19.IntDefs C19.TieLemmas.
 From Gen Require IntGen.
 Import ListNotations.
 Local Open Scope N_scope.
@@ -95,11 +95,15 @@ Proof.
   destruct (x <=? 1) eqn:E1; [reflexivity|]. apply N.leb_gt in E1.
   pose proof (log2_lt_w 32 x E1 Hx) as Hl.
   replace (x =? 0) with false by (symmetry; apply N.eqb_neq; lia).
-  replace (31 - (31 - N.log2 x)) with (N.log2 x) by lia.
-  replace (31 <? 31 - N.log2 x) with false by (symmetry; apply N.ltb_ge; lia).
-  replace (0x80000000 <=? N.log2 x + 2) with false by (symmetry; apply N.leb_gt; lia).
-  destruct (half_lt (N.log2 x) 32 Hl) as [Hh|Hh]; [|lia].
-  replace (32 <=? N.shiftr (N.log2 x + 2) 1) with false by (symmetry; apply N.leb_gt; lia).
+  set (l := N.log2 x) in *.
+  replace (Z.sub (Z.of_N 31) (Z.of_N (31 - l))) with (Z.of_N l) by lia.
+  replace (Z.add (Z.of_N l) (Z.of_N 2)) with (Z.of_N (l + 2)) by lia.
+  rewrite z_shiftr_of_N, N2Z.id.
+  rewrite (zrange_ok l) by (eapply N.lt_trans; [exact Hl|reflexivity]).
+  rewrite (zrange_ok (l + 2)) by (change (2 ^ 31) with 2147483648; lia).
+  rewrite znonneg.
+  destruct (half_lt l 32 Hl) as [Hh|Hh]; [|lia].
+  replace (32 <=? N.shiftr (l + 2) 1) with false by (symmetry; apply N.leb_gt; lia).
   rewrite <- sqrt32_loop. unfold sqrt_fuel, sqrt_start, bsr. change (IntGen.wrap 32) with (wrap 32).
   destruct (IntGen.a_u32_sqrt_loop1 40 x _) as [[x0 x1]|]; reflexivity.
 Qed.
@@ -111,11 +115,15 @@ Proof.
   destruct (x <=? 1) eqn:E1; [reflexivity|]. apply N.leb_gt in E1.
   pose proof (log2_lt_w 64 x E1 Hx) as Hl.
   replace (x =? 0) with false by (symmetry; apply N.eqb_neq; lia).
-  replace (63 - (63 - N.log2 x)) with (N.log2 x) by lia.
-  replace (63 <? 63 - N.log2 x) with false by (symmetry; apply N.ltb_ge; lia).
-  replace (0x80000000 <=? N.log2 x + 2) with false by (symmetry; apply N.leb_gt; lia).
-  destruct (half_lt (N.log2 x) 64 Hl) as [Hh|Hh]; [|lia].
-  replace (64 <=? N.shiftr (N.log2 x + 2) 1) with false by (symmetry; apply N.leb_gt; lia).
+  set (l := N.log2 x) in *.
+  replace (Z.sub (Z.of_N 63) (Z.of_N (63 - l))) with (Z.of_N l) by lia.
+  replace (Z.add (Z.of_N l) (Z.of_N 2)) with (Z.of_N (l + 2)) by lia.
+  rewrite z_shiftr_of_N, N2Z.id.
+  rewrite (zrange_ok l) by (eapply N.lt_trans; [exact Hl|reflexivity]).
+  rewrite (zrange_ok (l + 2)) by (change (2 ^ 31) with 2147483648; lia).
+  rewrite znonneg.
+  destruct (half_lt l 64 Hl) as [Hh|Hh]; [|lia].
+  replace (64 <=? N.shiftr (l + 2) 1) with false by (symmetry; apply N.leb_gt; lia).
   rewrite <- sqrt64_loop. unfold sqrt_fuel, sqrt_start, bsr. change (IntGen.wrap 64) with (wrap 64).
   destruct (IntGen.a_u64_sqrt_loop1 40 x _) as [[x0 x1]|]; reflexivity.
 Qed.
